@@ -94,6 +94,8 @@ ToStep(ev) ==
   IN [ pre |-> pre, in |-> ev.in, post |-> post, ok |-> ok,
        panic |-> ev.res.ack \in {"panic", "nil"},
        req |-> IF ev.in.t = "admin" /\ ~FullReq(ev) /\ ~ok THEN <<>> ELSE effReq,
+       \* requests recorded by the wrappers around the real message servers, whatever happened next
+       reached |-> IF ev.in.t = "recv" /\ FullReq(ev) THEN reqs ELSE <<>>,
        ctl |-> [n \in {"nopause", "clean", "noacts", "nopt"} |-> JCtl(ev, n, pre)],
        out |-> Outcome(pre, [ok |-> ok, st |-> post, req |-> IF ok THEN reqs ELSE <<>>]),
        orbUp |-> OrbUp(ev),
@@ -196,7 +198,9 @@ Ante(S) ==
        [] c = "C05" -> IsTransfer(S) \/ (IsOrbiterPacket(S) /\ S.in.mk = "PAYLOAD" /\ (Unrouted(S.in) \/ Mismatch(S.in)))
        [] c = "C06" -> (HasActions(S) /\ S.hasTrace) \/ (IsOrbiterPacket(S) /\ S.in.mk = "PAYLOAD" /\ ParseOK(S.in) /\ RepeatsAction(S.in))
        [] c = "C08" -> (HasPayload(S) /\ (S.pre.pProto # {} \/ S.pre.pCC # {})) \/ IsPauseMsg(S)
+                         \/ (S.in.t = "gendoc" /\ S.gen.initOk /\ (S.in.g.pp # <<>> \/ S.in.g.pcc # <<>>))
        [] c = "C09" -> (HasPayload(S) /\ S.pre.pAct # {}) \/ (IsAdmin(S) /\ S.in.rpc \in ActionRpcs)
+                         \/ (S.in.t = "gendoc" /\ S.gen.initOk /\ S.in.g.pa # <<>>)
        [] c = "C14" -> IsRecv(S) /\ S.in.mk \in {"MUT", "RANDOM", "RAW"}
        [] c = "C07" -> (IsRecv(S) /\ ~ForOrbiter(S.in) /\ S.hasDiff) \/ S.in.t \in {"ackpkt", "timeout"}
        [] c = "C13" -> S.in.t = "query"
@@ -210,6 +214,7 @@ Ante(S) ==
                          \/ (IsBig(S) /\ ~BIsZero(S.big.orbPre))
        [] c = "C17" -> S.in.t = "reimport"
        [] c = "C18" -> (HasPayload(S) /\ S.in.fw.pt > 0) \/ (IsAdmin(S) /\ S.in.rpc = "UpdateParams")
+                         \/ (S.in.t = "gendoc" /\ S.gen.initOk)
        [] OTHER -> FALSE}
 
 \* human-readable detail for batched steps: which entries depart from the model
